@@ -1,4 +1,4 @@
-CONSTANTS Variant = "DoubleDigestAttr"
+CONSTANTS Variant = "DoubleDigestAttr"  ALens = {"natural"}  Slim = FALSE
 SPECIFICATION Spec
 INVARIANTS TypeOK SignedPartsSame MandatoryAttrsOnce RefuseOnlyWhenJustified
 CHECK_DEADLOCK FALSE
